@@ -83,6 +83,18 @@ func TestVsymReplay(t *testing.T) {
 			outcome = "REPRODUCED waiter released by another code"
 			return
 		}
+		// a request received by another agent of the same process
+		c3, c4 := net.Pipe()
+		defer c3.Close()
+		defer c4.Close()
+		if s2, err := newShimAgent(c3, false); err == nil {
+			time.Sleep(200 * time.Millisecond)
+			s2.Broadcast(byte(code))
+			if released(300 * time.Millisecond) {
+				outcome = "REPRODUCED waiter released by a request received by another agent"
+				return
+			}
+		}
 		time.Sleep(200 * time.Millisecond) // both waiters registered
 		s.Broadcast(byte(code))
 		if !released(2*time.Second) || !released(2*time.Second) {
